@@ -201,7 +201,9 @@ def idents_used(e: Any) -> set:
 
 
 def python_hostile_names(e: Any) -> set:
-    return idents_used(e) & (A.PY_KEYWORDS | A.ACTIVATION_ATTRS)
+    """identifiers the transpiled `activation.<name>` reads as an attribute of the Activation object instead of the
+    binding (Python keywords were the other half of D61: fixed by c260d90, they are pasted as activation.get('kw'))"""
+    return idents_used(e) & A.ACTIVATION_ATTRS
 
 
 def boolish(b: Any) -> bool:
@@ -317,7 +319,7 @@ def model_expr(e: Any, scope: set) -> str:
             raise NotModelled("mcall " + e[2])
         return f"mcall {model_expr(e[1], scope)} {e[2]} {len(e[3])} " + " ".join(model_expr(x, scope) for x in e[3])
     if k == "macro":
-        if not re.fullmatch(r"[A-Za-z_][A-Za-z0-9_]*", e[3]) or e[3] in A.PY_KEYWORDS | A.ACTIVATION_ATTRS:
+        if not re.fullmatch(r"[A-Za-z_][A-Za-z0-9_]*", e[3]) or e[3] in A.ACTIVATION_ATTRS:
             raise NotModelled("macro var")
         return f"macro {e[1]} {model_expr(e[2], scope)} {e[3]} {model_expr(e[4], scope | {e[3]})}"
     if k == "dyn":
@@ -777,7 +779,7 @@ class C03(Prop):
                 return False
             a = ast(c)
             if a[0] == "raw":
-                return bool(set(re.findall(r"[A-Za-z_][A-Za-z0-9_]*", a[1])) & (A.PY_KEYWORDS | A.ACTIVATION_ATTRS) - {"in"})
+                return bool(set(re.findall(r"[A-Za-z_][A-Za-z0-9_]*", a[1])) & A.ACTIVATION_ATTRS)
             return bool(python_hostile_names(a))
 
         def macro_nonbool_body(c):
